@@ -27,7 +27,7 @@ def main():
         if not os.path.isfile(patch):
             continue
         meta = json.load(open(os.path.join(d, "meta.json")))
-        prop = meta.get("property", sid[:3])
+        prop = str(meta.get("property", sid))[:3]
         props = [prop] + [p for p in meta.get("also_run", []) if p != prop]
         st = sh("git -C /repo status --porcelain")
         if st.stdout.strip():
@@ -60,6 +60,8 @@ def main():
             print(sid, "caught" if r["caught"] else "MISSED", {p: (v.get("exit"), v.get("with_failing_input")) for p, v in r["checks"].items()})
         finally:
             sh("git -C /repo checkout -- .")
+            sh("git -C /repo clean -fdq -- compiler docs 2>/dev/null")   # files a patch added
+            sh("python3 tools/translate.py", cwd=VERIF)                   # the generated facts follow the tree again
             for ev, data in keep.items():
                 if data is not None:
                     open(ev, "wb").write(data)
